@@ -1652,6 +1652,13 @@ fn correspondence_break(
         st.count("violations_suppressed_in_thread", 1);
         return;
     }
+    // a systematic break makes every case differ: investigate only the first few per worker
+    // (each investigation runs ~220 further programs), the rest are counted
+    if st.counters.get("correspondence_breaks_investigated").copied().unwrap_or(0) >= 4 {
+        st.count("correspondence_breaks_counted_only", 1);
+        return;
+    }
+    st.count("correspondence_breaks_investigated", 1);
     let mut candidates: Vec<(Src, Cfg)> = Vec::new();
     let mut cfgs = vec![cfg.clone()];
     for incl in [false, true] {
